@@ -340,14 +340,15 @@ func CallKey(c *ssa.CallCommon) string {
 // backward dependency slice (flow-insensitive, may-analysis)
 
 type slicer struct {
-	seen   map[ssa.Value]bool
-	seenA  map[ssa.Value]bool      // visited in address mode
-	params map[*ssa.Parameter]bool // parameters reached
-	paths  map[string]bool         // param-rooted descriptors of the locations actually read / passed
-	calls  map[*ssa.Call]bool
-	stop   func(v ssa.Value) bool // values at which slicing stops (treated as clean)
-	noObj  bool                   // do not treat pointer-like call results / loads as shared mutable objects
-	budget int
+	seen      map[ssa.Value]bool
+	seenA     map[ssa.Value]bool      // visited in address mode
+	params    map[*ssa.Parameter]bool // parameters reached
+	paths     map[string]bool         // param-rooted descriptors of the locations actually read / passed
+	calls     map[*ssa.Call]bool
+	stop      func(v ssa.Value) bool // values at which slicing stops (treated as clean)
+	noObj     bool                   // do not treat pointer-like call results / loads as shared mutable objects
+	seenAlias map[ssa.Value]bool
+	budget    int
 }
 
 func newSlicer() *slicer {
@@ -412,6 +413,24 @@ func (s *slicer) visitM(v ssa.Value, addr bool) {
 	case *ssa.IndexAddr:
 		if !addr {
 			s.record(x)
+		}
+		// element-wise contract of gnark-crypto BatchScalarMultiplicationG1/G2(base, scalars): result[i] = scalars[i]·base
+		if c, ok := resolveCell(x.X).(*ssa.Call); ok && strings.Contains(CalleeName(&c.Call), ".BatchScalarMultiplicationG") && len(c.Call.Args) == 2 {
+			if k, ok := x.Index.(*ssa.Const); ok && k.Value != nil {
+				if sl, ok := c.Call.Args[1].(*ssa.Slice); ok {
+					if al, ok := sl.X.(*ssa.Alloc); ok {
+						if el := arrayLitElems(al); el != nil {
+							i, _ := constant.Int64Val(k.Value)
+							if int(i) < len(el) {
+								s.calls[c] = true
+								s.visitM(c.Call.Args[0], false)
+								s.visitM(el[i], false)
+								return
+							}
+						}
+					}
+				}
+			}
 		}
 		s.visitM(x.X, true)
 		s.visitM(x.Index, false)
@@ -578,7 +597,14 @@ func (s *slicer) visitAddrUses(v ssa.Value) {
 				s.visit(ins.Value)
 			}
 		case *ssa.Call:
-			// address passed to a call: the callee may write it from its other arguments
+			// address passed to a call: the callee may write it from its other arguments.
+			// Foreign (gnark-crypto / std) methods write only their receiver: a pointer passed in another
+			// argument position is read-only.
+			if cal := ins.Call.StaticCallee(); cal != nil && cal.Signature.Recv() != nil {
+				if pk := FuncPkg(cal); pk != nil && !inModule(pk.Path()) && len(ins.Call.Args) > 0 && ins.Call.Args[0] != v && !outParamMethods[cal.Name()] {
+					continue
+				}
+			}
 			s.calls[ins] = true
 			if ins.Call.IsInvoke() {
 				s.visit(ins.Call.Value)
@@ -586,6 +612,16 @@ func (s *slicer) visitAddrUses(v ssa.Value) {
 			for _, a := range ins.Call.Args {
 				if a != v {
 					s.visit(a)
+				}
+			}
+			// fluent methods return their receiver: the result aliases v (x.Mul(..).Add(..))
+			if len(ins.Call.Args) > 0 && ins.Call.Args[0] == v && types.Identical(ins.Type(), v.Type()) {
+				if s.seenAlias == nil {
+					s.seenAlias = map[ssa.Value]bool{}
+				}
+				if !s.seenAlias[ins] {
+					s.seenAlias[ins] = true
+					s.visitAddrUses(ins)
 				}
 			}
 		case *ssa.Go:
@@ -710,3 +746,32 @@ func reach(start *ssa.BasicBlock, skip func(from, to *ssa.BasicBlock) bool) map[
 	}
 	return seen
 }
+
+// resolveCell looks through a load of a single-assignment variable cell (also when captured by a closure).
+func resolveCell(v ssa.Value) ssa.Value {
+	for d := 0; d < 4; d++ {
+		u, ok := v.(*ssa.UnOp)
+		if !ok || u.Op != token.MUL {
+			return v
+		}
+		var cell ssa.Value = u.X
+		if fv, ok := cell.(*ssa.FreeVar); ok {
+			if b := closureBinding(fv); b != nil {
+				cell = b
+			}
+		}
+		al, ok := cell.(*ssa.Alloc)
+		if !ok {
+			return v
+		}
+		sv := singleStore(al)
+		if sv == nil {
+			return v
+		}
+		v = sv
+	}
+	return v
+}
+
+// foreign methods that write a non-receiver pointer argument
+var outParamMethods = map[string]bool{"BigInt": true, "ToBigIntRegular": true, "BigIntRegular": true, "FillBytes": true, "Read": true, "Decode": true, "Unmarshal": true}
